@@ -38,6 +38,37 @@ def model_check(ctx):
   if not ctx.quick:
     r = tlc.expect_holds('MC_Checks', 'MC_Checks_3.cfg', timeout=7200)
     ctx.note_mc(r, 'Checks/MC_Checks_3: three checks')
+  if ctx.prop == 'C16':
+    apalache_inductive(ctx)
+
+
+def apalache_inductive(ctx):
+  """Unbounded histories for the bookkeeping core: Init => IndInv and IndInv /\\ Next => IndInv' /\\ Mono (Apalache)."""
+  import os, shutil, subprocess, time
+  d = os.path.join(tlc.SPEC, 'apalache')
+  out = os.path.join(tlc.BUILD, 'apalache-%d' % os.getpid())
+  def run(mod, init, inv, length):
+    t0 = time.time()
+    p = subprocess.run(['apalache-mc', 'check', '--init=' + init, '--inv=' + inv, '--length=%d' % length, '--out-dir=' + out, mod + '.tla'],
+                       cwd=d, capture_output=True, text=True, timeout=900)
+    shutil.rmtree(out, ignore_errors=True)
+    ok = 'EXITCODE: OK' in p.stdout
+    err = 'EXITCODE: ERROR (12)' in p.stdout      # 12 = invariant violated
+    if not ok and not err:
+      raise tlc.MachineryError('apalache failed on %s: %s' % (mod, (p.stdout + p.stderr)[-800:]))
+    return ok, round(time.time() - t0, 1)
+  obligations = [('TestInfoInd', 'Init', 'IndInv', 0), ('TestInfoInd', 'IndInit', 'IndInvAndMono', 1)]
+  done = []
+  for mod, init, inv, length in obligations:
+    ok, w = run(mod, init, inv, length)
+    if not ok:
+      raise tlc.MachineryError('inductive obligation %s/%s does not hold: the bookkeeping model is wrong' % (init, inv))
+    done.append({'obligation': '%s => %s (length %d)' % (init, inv, length), 'wall_s': w})
+  ok, w = run('TestInfoIndBad', 'IndInit', 'IndInvAndMono', 1)
+  if ok:
+    raise tlc.MachineryError('the always-append deviation should violate NoDup (non-vacuity of the inductive check)')
+  ctx.notes['apalache_inductive'] = {'discharged': done, 'non_vacuity': 'always-append deviation violates the invariant (%.1fs)' % w}
+  ctx.checker_cmds.append('apalache-mc check --init=IndInit --inv=IndInvAndMono --length=1 TestInfoInd.tla')
 
 
 def replay_and_validate(ctx, plans, label, detail_keys=('kind',), cheap_ec=None, pre_annotate=True, directed=True):
